@@ -302,6 +302,12 @@ func normRead(url string, st int, body []byte) string {
 			return bodyRepr(st, b)
 		}
 	}
+	if st == 200 && strings.HasSuffix(path, "/mappings") {
+		// one "supervoxel label" line per mapping, in no particular order
+		lines := strings.Split(strings.TrimSpace(string(body)), "\n")
+		sort.Strings(lines)
+		return bodyRepr(st, []byte(strings.Join(lines, "\n")))
+	}
 	if st == 200 && strings.Contains(path, "/nj/") {
 		switch {
 		case strings.HasSuffix(path, "/all") || strings.HasSuffix(path, "/query") || strings.HasSuffix(path, "/fields") && !strings.Contains(url, "counts"):
